@@ -379,6 +379,22 @@ SPECS["C20"] = dict(
 )
 
 
+SPECS["C04"] = dict(
+    level="model_checking",
+    engine="E3 evx (+ race build in C20)",
+    state_based=True,
+    technique="exhaustive exploration of arrival/reply-delivery orders for concurrent queries on the real router with real upstream transports and cache, checked against a keyed answer function",
+    claim="For every upstream transport kind, cache mode, listener pair and question triple of the alphabet (repeated questions, same name with other class/type/case) and every order of "
+          "query arrivals and upstream reply deliveries up to the depth bound, each client-visible response carries its own question and exactly the answer the upstream produced for that "
+          "(name, class, type), whether relayed or served from cache, and every query gets exactly one response.",
+    trusted="scripted dialer/peer below the real transports; listener seams as in C03; lock-level interleavings of the cache are the E2 part of C07.",
+    rule="see evidence rule written by the harness",
+    assumptions=["upstream answers are a keyed function of the question plus a serial, so any mix-up is observable"],
+    parts=[router_part("mixups", "TestVerifC04", ["zz_verif_c04_test.go", "zz_verif_c03_test.go", "zz_verif_c19_test.go", "zz_verif_c07_test.go", "zz_verif_c08_test.go"],
+                       params={"quick": {"DEPTH": 5, "SHARDDEPTH": 4}, "thorough": {"DEPTH": 8, "SHARDDEPTH": 4}})],
+)
+
+
 def _c20_parts():
     import copy
     out = []
@@ -389,7 +405,8 @@ def _c20_parts():
             ("C18", "transports", {"DEPTH": 4, "FAULTS": 2}, {"DEPTH": 6, "FAULTS": 3}),
             ("C13", "framing", {"MAXK": 2, "COARSEK": 2, "FULLSEG": 0, "SHARDDEPTH": 4}, {"MAXK": 2, "COARSEK": 3, "FULLSEG": 0, "SHARDDEPTH": 4}),
             ("C19", "prefetch", {"DEPTH": 4, "FAULTS": 2}, {"DEPTH": 6, "FAULTS": 3}),
-            ("C03", "router", {}, {})]
+            ("C03", "router", {}, {}),
+            ("C04", "mixups", {"DEPTH": 4, "SHARDDEPTH": 4}, {"DEPTH": 6, "SHARDDEPTH": 4})]
     for pid, pname, q, t in plan:
         for p in SPECS[pid]["parts"]:
             if p["name"] == pname:
